@@ -24,7 +24,7 @@ def rfunc(ctx, name):
 
 
 def call(ctx, name, *args, **kw):
-    return ctx.world.interp.call_function(ctx, rfunc(ctx, name), list(args), kw)
+    return A.unwrap0(ctx.world.interp.call_function(ctx, rfunc(ctx, name), list(args), kw))
 
 
 def unit_obj(ctx, name):
